@@ -8,8 +8,8 @@ package main
 
 import (
 	"fmt"
-	"os"
 	"go/types"
+	"os"
 	"sort"
 	"strings"
 
@@ -592,7 +592,6 @@ func returnsAfter(in ssa.Instruction) []*ssa.Return {
 	walk(in.Block())
 	return out
 }
-
 
 // passedToSynchronousCaller: the instruction is a plain call of a module function with a body that
 // receives a function value (a method value or literal created for this call) as an argument and
